@@ -199,6 +199,8 @@ def snap(obj) -> Any:
 
 def make_rot(kind: str, a):
     from srctools.math import Angle, FrozenAngle, Matrix, FrozenMatrix
+    if all(float(x).is_integer() for x in a) and sum(map(abs, a)) % 2 == 1:
+        a = tuple(int(x) for x in a)   # whole numbers are also given as ints (what code that builds angles from literals passes)
     return {'Angle': lambda: Angle(*a), 'FrozenAngle': lambda: FrozenAngle(*a),
             'Matrix': lambda: Matrix.from_angle(*a), 'FrozenMatrix': lambda: FrozenMatrix.from_angle(*a)}[kind]()
 
@@ -357,6 +359,15 @@ def law_operands(run, rng, a, b, v, engine, case) -> None:
                 if d > 1e-12 * 4:
                     run.violation(f'{ka} @ {kb} differs from the model product by {d:.3g}', case=case, engine=engine,
                                   key='mat-mul-wrong')
+                elif ka == 'Matrix' and kb in ('Angle', 'FrozenMatrix'):
+                    # a product (and its copies) is a rotation matrix like any other: the conversion laws hold for it too
+                    import copy as _copy
+                    import pickle as _pickle
+                    for m2 in (C, C.copy(), _copy.deepcopy(C), _pickle.loads(_pickle.dumps(C)), C.freeze(), type(C)(C)):
+                        e2 = mat_entries(m2)
+                        law_to_angle(run, m2, e2, engine, case)
+                        law_inverse(run, m2, e2, engine, case)
+                    run.count('conversion_laws_on_products_and_copies')
             # in-place form of the left operand
             A2 = make_rot(ka, a)
             A20 = A2
@@ -625,7 +636,7 @@ def main(run, shard=(0, 1)) -> None:
     probe.check_reached(run)
     if shard[0] == 0:
         native_engine(run)
-    run.require('self_aliased_products', 'results_edited_in_place', 'entry_point_evaluations', 'assoc_through_gimbal', 'near_twin_evaluations', 'reflected_direct_calls', 'from_angle_checked', 'to_angle_roundtrips', 'to_angle_gimbal_branch', 'operand_combos', 'assoc_checked',
+    run.require('self_aliased_products', 'results_edited_in_place', 'entry_point_evaluations', 'conversion_laws_on_products_and_copies', 'assoc_through_gimbal', 'near_twin_evaluations', 'reflected_direct_calls', 'from_angle_checked', 'to_angle_roundtrips', 'to_angle_gimbal_branch', 'operand_combos', 'assoc_checked',
                 'inverse_checked', 'constructed_rotations')
 
 
